@@ -8,7 +8,8 @@ Import ListNotations.
 Open Scope Z_scope.
 
 Lemma fam_builtin_in_family : forall c, In c fam_builtin -> In c family.
-Proof. intros c H. unfold family. apply in_or_app; right. apply in_or_app; right. apply in_or_app; right. apply in_or_app; right. exact H. Qed.
+Proof. intros c H. unfold family. apply in_or_app; right. apply in_or_app; right. apply in_or_app; right. apply in_or_app; right.
+  apply in_or_app; left. exact H. Qed.
 
 Lemma builtin_member : forall r q, In r b_routes -> In q b_reqs -> In (builtin_cfg bl_all r q) family.
 Proof.
